@@ -37,6 +37,8 @@ spec fn cm_law<T: CountMinValue>() -> bool {
     &&& <T as PartialOrdSpec>::obeys_partial_cmp_spec() && forall|a: T, b: T| #[trigger] a.partial_cmp_spec(&b) == Some(ord_of(a.val(), b.val()))
     &&& T::ZERO.val() == 0 && T::ONE.val() == 1
     &&& forall|a: T| T::in_range(#[trigger] a.val()) && a.val() <= T::MAX.val()
+    // Clone of a Copy counter is the counter (used by `vec![T::ZERO; n]`)
+    &&& forall|a: T, b: T| #[trigger] cloned::<T>(a, b) ==> a == b
 }
 spec fn unsigned_law<T: CountMinValue>() -> bool { forall|a: T| #[trigger] a.val() >= 0 }
 
@@ -220,6 +222,40 @@ impl<T: CountMinValue> CountMinSketch<T> {
       ensures r == bucket(item_key(*item), seed, self.num_buckets), r < self.num_buckets,
     { unimplemented!() }
 
+    fn make ( num_hashes : u8 , num_buckets : u32 , seed : u64 , entries : usize ) -> ( r : Self ) requires cm_law :: < T > ( ) , num_hashes >= 1 , num_buckets >= 3 , entries == ( num_hashes as int ) * ( num_buckets as int ) , entries < MAX_TABLE_ENTRIES , seed_hash_spec ( seed ) != 0 , ensures r . wf ( ) , r . num_hashes == num_hashes , r . num_buckets == num_buckets , r . seed == seed ,
+/*@C18.cm_fixed_size*/ r . counts @ . len ( ) == num_hashes as int * num_buckets as int ,
+/*@C08.empty_model*/ r . models ( Seq :: < Ev > :: empty ( ) ) , {
+let counts = vec! [ T :: ZERO ;
+entries ] ;
+let seed_hash = compute_seed_hash ( seed ) ;
+let hash_seeds = make_hash_seeds ( seed , num_hashes ) ;
+proof {
+assert forall | r : int , b : int | 0 <= r < num_hashes && 0 <= b < num_buckets implies counts @ [ # [ trigger ] cell ( r , b , num_buckets as int ) ] . val ( ) == 0 by {
+lemma_cell_bound ( r , b , num_hashes as int , num_buckets as int ) ;
+}
+}
+CountMinSketch {
+num_hashes , num_buckets , seed , seed_hash , total_weight : T :: ZERO , counts , hash_seeds , }
+}
+
+
+    fn is_empty ( & self ) -> ( r : bool ) requires cm_law :: < T > ( ) , ensures r == ( self . total_weight . val ( ) == 0 ) , {
+self . total_weight == T :: ZERO }
+
+
+    fn update < I : Hash > ( & mut self , item : I ) requires old ( self ) . wf ( ) , T :: in_range ( old ( self ) . total_weight . val ( ) + 1 ) , forall | i : int | 0 <= i < old ( self ) . counts @ . len ( ) ==> # [ trigger ] fits ( old ( self ) . counts @ [ i ] , T :: ONE ) , ensures final ( self ) . wf ( ) ,
+/*@C18.cm_fixed_size*/ final ( self ) . same_config ( old ( self ) ) ,
+/*@C08.total_abs*/ final ( self ) . total_weight . val ( ) == old ( self ) . total_weight . val ( ) + 1 ,
+/*@C08.table_model*/ forall | h : Seq < Ev > | # [ trigger ] old ( self ) . models ( h ) ==> final ( self ) . models ( h . push ( Ev :: Upd ( item_key ( item ) , 1 ) ) ) , {
+self . update_with_weight ( item , T :: ONE ) ;
+}
+
+
+    fn lower_bound < I : Hash > ( & self , item : I ) -> ( r : T ) requires self . wf ( ) , ensures
+/*@C08.one_sided*/ forall | h : Seq < Ev > | # [ trigger ] self . models ( h ) && nonneg ( h ) ==> truth ( h , item_key ( item ) ) <= r . val ( ) <= total ( h ) , {
+self . estimate ( item ) }
+
+
     fn total_weight ( & self ) -> ( r : T ) ensures
 /*@C08.total_exact*/ forall | h : Seq < Ev > | # [ trigger ] self . models ( h ) ==> r . val ( ) == total ( h ) , {
 self . total_weight }
@@ -400,6 +436,29 @@ lemma_cell_bound ( r , b , self . num_hashes as int , self . num_buckets as int 
 }
 
 }
+
+// hash leaves (C16): contracts define the spec functions
+pub uninterp spec fn seed_hash_spec(seed: u64) -> u16;
+#[verifier::external_body]
+fn compute_seed_hash(seed: u64) -> (r: u16)
+  requires seed_hash_spec(seed) != 0,
+  ensures r == seed_hash_spec(seed),
+{ unimplemented!() }
+#[verifier::external_body]
+fn make_hash_seeds(seed: u64, num_hashes: u8) -> (r: Vec<u64>)
+  ensures r@ == seeds_spec(seed, num_hashes), r@.len() == num_hashes,
+{ unimplemented!() }
+
+fn entries_for_config ( num_hashes : u8 , num_buckets : u32 ) -> ( entries : usize ) requires num_hashes > 0 , num_buckets >= 3 , ( num_hashes as int ) * ( num_buckets as int ) < MAX_TABLE_ENTRIES , ensures entries == ( num_hashes as int ) * ( num_buckets as int ) , entries < MAX_TABLE_ENTRIES , {
+assert! ( num_hashes > 0 ) ;
+assert! ( num_buckets >= 3 ) ;
+proof {
+assert ( num_hashes as int * num_buckets as int <= 255 * 0xffff_ffff ) by ( nonlinear_arith ) requires num_hashes <= 255 , num_buckets <= 0xffff_ffff ;
+}
+let entries = ( num_hashes as usize ) . checked_mul ( num_buckets as usize ) . expect ( "" ) ;
+assert! ( entries < MAX_TABLE_ENTRIES ) ;
+entries }
+
 
 // `&mut self` and `&other` cannot alias (borrow rules)
 #[verifier::external_body]
